@@ -175,7 +175,7 @@ pub fn run(tier: Tier, seed: u64) -> i32 {
                                 o.$op(&mut buf[off..off + l]);
                                 off += l;
                             }
-                            if buf != want || o != bytewise {
+                            if buf != want || !(o == bytewise || crate::ciphers::same_future(&o, &bytewise, 300, |x, d| x.$op(d))) {
                                 viol(&report, $name, "chunk-composition", key, json!({"start": start, "data": hex(&data), "calls": comp, "empty_calls": with_empty}),
                                     format!("got {} want {} object_equal_to_bytewise={}", hex(&buf), hex(&want), o == bytewise));
                             }
@@ -203,7 +203,7 @@ pub fn run(tier: Tier, seed: u64) -> i32 {
                 r.skip(start);
                 let mut want = p.clone();
                 r.apply(&mut want);
-                if b1 != want || b2 != want || o1 != o2 {
+                if b1 != want || b2 != want || !(o1 == o2 || crate::ciphers::same_future(&o1, &o2, 300, |x, d| x.encrypt(d))) {
                     viol(&report, "client-encrypter", "call-size", key, json!({"start": start, "len": l}), format!("one call of {l} bytes disagrees with reference or with a chunked run (objects equal: {})", o1 == o2));
                 }
                 n += 1;
